@@ -17,8 +17,14 @@
      unconsumed digit or keeps errOverflow: always an error, class may differ);
    * values that need string->number or float->string coercion give the
      outcome EUnmodelled, which is not a Go outcome.
-   Ghost outputs of [pack] (not in the Go code): the list of values as the
-   unpacker is expected to return them, and the list of defect classes met.
+   * the unpacker keeps (pack, j) in Go; the model keeps j (needed for alignment)
+     and the unread suffix pack[j:] ([u_rest]), which is the same information.
+   Ghost output of [pack] (not in the Go code): the list of values as the
+   unpacker is expected to return them.
+   The model mirrors the code AFTER the round-2 repairs (notes/C17.md): readStr
+   checks the announced length first, unsigned 8-byte options accept any integer,
+   NaN passes checkFloatSize, 'X' must be followed by an alignable option in
+   pack, unpack and packsize alike, 'x' aligns in unpack, c0 is a real limit.
 
    No proofs in this file. *)
 From Coq Require Import ZArith List Bool.
@@ -133,7 +139,7 @@ Definition f32_to_f64 (b : Z) : Z :=
 Definition maxf32_bits : Z := 5183643170566569984. (* 0x47efffffe0000000 *)
 Definition check_float_size (bits : Z) : bool :=
   let a := bits mod H in
-  (a <=? maxf32_bits) || (a =? 2047 * P52).
+  (a <=? maxf32_bits) || (2047 * P52 <=? a).   (* finite within range, or infinite, or NaN *)
 
 (* ---------------------------------------------------------------- value coercions *)
 Inductive conv (A : Type) := CvOk (a : A) | CvBad | CvUnmodelled.
@@ -147,7 +153,7 @@ Definition to_int (v : value) : conv Z :=
   end.
 Definition to_float (v : value) : conv Z :=
   match v with
-  | VInt n => CvOk (int_to_f64 n)
+  | VInt n => CvOk (int_to_f64 n mod W)      (* a float64 is 64 bits: [mod W] is the identity on int_to_f64's range *)
   | VFlt b => CvOk b
   | VStr _ => CvUnmodelled
   | VNil => CvBad
@@ -196,23 +202,24 @@ Definition mustGetOptSize (fmt : list Z) : (perr + Z) * list Z :=
   | ((None, false, _), rest) => (inl EMissingSize, rest)
   end.
 
+(* alignableOption *)
+Definition alignable (c : Z) : bool :=
+  existsb (fun x => x =? c) [98; 66; 104; 72; 108; 76; 106; 74; 84; 105; 73; 102; 100; 110; 115; 120].
+
 (* ---------------------------------------------------------------- packer *)
-Inductive defect := DXopt | DC0.
 
 Record pst := mkP {
   p_rd : rd; p_fmt : list Z; p_vals : list value;
   p_w : list Z;                 (* bytes written so far *)
-  p_packed : list value;        (* ghost: values as the unpacker should return them *)
-  p_def : list defect           (* ghost: defect classes met *)
+  p_packed : list value         (* ghost: values as the unpacker should return them *)
 }.
 Inductive pres := PCont (s : pst) | PFail (e : perr).
 
-Definition p_set_rd (s : pst) (r : rd) := mkP r (p_fmt s) (p_vals s) (p_w s) (p_packed s) (p_def s).
-Definition p_set_fmt (s : pst) (f : list Z) := mkP (p_rd s) f (p_vals s) (p_w s) (p_packed s) (p_def s).
-Definition p_write (s : pst) (bs : list Z) := mkP (p_rd s) (p_fmt s) (p_vals s) (p_w s ++ bs) (p_packed s) (p_def s).
-Definition p_emit (s : pst) (v : value) := mkP (p_rd s) (p_fmt s) (p_vals s) (p_w s) (p_packed s ++ [v]) (p_def s).
-Definition p_defect (s : pst) (d : defect) := mkP (p_rd s) (p_fmt s) (p_vals s) (p_w s) (p_packed s) (p_def s ++ [d]).
-Definition p_pop (s : pst) (vs : list value) := mkP (p_rd s) (p_fmt s) vs (p_w s) (p_packed s) (p_def s).
+Definition p_set_rd (s : pst) (r : rd) := mkP r (p_fmt s) (p_vals s) (p_w s) (p_packed s).
+Definition p_set_fmt (s : pst) (f : list Z) := mkP (p_rd s) f (p_vals s) (p_w s) (p_packed s).
+Definition p_write (s : pst) (bs : list Z) := mkP (p_rd s) (p_fmt s) (p_vals s) (p_w s ++ bs) (p_packed s).
+Definition p_emit (s : pst) (v : value) := mkP (p_rd s) (p_fmt s) (p_vals s) (p_w s) (p_packed s ++ [v]).
+Definition p_pop (s : pst) (vs : list value) := mkP (p_rd s) (p_fmt s) vs (p_w s) (p_packed s).
 
 Definition clear_ao (r : rd) := mkRd (little r) (maxAl r) false.
 Definition set_ao (r : rd) := mkRd (little r) (maxAl r) true.
@@ -267,7 +274,7 @@ Definition packInt (n : Z) (v : Z) (s : pst) : pres :=
 Definition packUint (n : Z) (v : Z) (s : pst) : pres :=
   let lt := little (p_rd s) in
   if n =? 4 then p_bounds 0 4294967295 v (PCont (p_put_int 4 v s))
-  else if n =? 8 then p_bounds 0 maxint v (PCont (p_put_int 8 v s))
+  else if n =? 8 then PCont (p_put_int 8 v s)
   else if 8 <? n then
     let fill := repeat 0 (Z.to_nat (n - 8)) in
     PCont (p_write s (if lt then enc lt 8 v ++ fill else fill ++ enc lt 8 v))
@@ -277,9 +284,9 @@ Definition packUint (n : Z) (v : Z) (s : pst) : pres :=
       (PCont (p_write s (if lt then firstn (Z.to_nat n) (enc lt 8 v)
                          else skipn (Z.to_nat (8 - n)) (enc lt 8 v)))).
 
-(* writeStr(maxLen): int(maxLen) wraps for maxLen >= 2^63 *)
-Definition p_write_str (maxLen : Z) (str : list Z) (s : pst) : perr + (pst * list Z) :=
-  let diff := if 0 <? maxLen then to_i64 maxLen - len str else 0 in
+(* writeStr(maxLen, fixedLen): int(maxLen) wraps for maxLen >= 2^63 *)
+Definition p_write_str (maxLen : Z) (fixedLen : bool) (str : list Z) (s : pst) : perr + (pst * list Z) :=
+  let diff := if fixedLen then to_i64 maxLen - len str else 0 in
   if diff <? 0 then inl EStringLongerThanFormat
   else let out := str ++ zeros diff in inr (p_write s out, out).
 
@@ -287,7 +294,6 @@ Definition has_zero (str : list Z) : bool := existsb (fun b => b =? 0) str.
 
 Definition pack_opt (c : Z) (s : pst) : pres :=
   let r := p_rd s in
-  let xbad (s : pst) := if alignOnly r then p_defect s DXopt else s in
   let fixed_int (al : Z) (k : nat) (lo hi : Z) (chk : bool) :=
     p_align al s (fun s => p_next_int s (fun v s =>
       let body := PCont (p_emit (p_put_int k v s) (VInt v)) in
@@ -305,7 +311,7 @@ Definition pack_opt (c : Z) (s : pst) : pres :=
   else if c =? 104 then fixed_int 2 2%nat (-32768) 32767 true
   else if c =? 72 then fixed_int 2 2%nat 0 65535 true
   else if (c =? 108) || (c =? 106) then fixed_int 8 8%nat 0 0 false
-  else if (c =? 76) || (c =? 74) || (c =? 84) then fixed_int 8 8%nat 0 maxint true
+  else if (c =? 76) || (c =? 74) || (c =? 84) then fixed_int 8 8%nat 0 0 false
   else if (c =? 105) || (c =? 73) then
     match smallOptSize 8 (p_fmt s) with
     | (inl e, _) => PFail e
@@ -319,7 +325,7 @@ Definition pack_opt (c : Z) (s : pst) : pres :=
   else if c =? 102 then
     p_align 4 s (fun s => p_next_float s (fun f s =>
       if check_float_size f then
-        let b := f64_to_f32 f in
+        let b := f64_to_f32 f mod 4294967296 in   (* a float32 is 32 bits: identity on f64_to_f32's range *)
         PCont (p_emit (p_put_int 4 b s) (VFlt (f32_to_f64 b)))
       else PFail EOutOfBounds))
   else if (c =? 100) || (c =? 110) then
@@ -330,15 +336,13 @@ Definition pack_opt (c : Z) (s : pst) : pres :=
       | (inl e, _) => PFail e
       | (inr n, rest) =>
         p_next_str (p_set_fmt s rest) (fun str s =>
-          match p_write_str n str s with
+          match p_write_str n true str s with
           | inl e => PFail e
-          | inr (s', out) =>
-            let s'' := p_emit s' (VStr out) in
-            PCont (if (n =? 0) && negb (len str =? 0) then p_defect s'' DC0 else s'')
+          | inr (s', out) => PCont (p_emit s' (VStr out))
           end)
       end)
   else if c =? 122 then
-    p_align 0 (xbad s) (fun s => p_next_str s (fun str s =>
+    p_align 0 s (fun s => p_next_str s (fun str s =>
       if has_zero str then PFail EStringContainsZeros
       else PCont (p_emit (p_write s (str ++ [0])) (VStr str))))
   else if c =? 115 then
@@ -352,13 +356,13 @@ Definition pack_opt (c : Z) (s : pst) : pres :=
         | PFail e => PFail e
         end))
     end
-  else if c =? 120 then p_align 0 (xbad s) (fun s => PCont (p_write s [0]))
-  else if c =? 88 then PCont (p_set_rd (xbad s) (set_ao r))
-  else if c =? 32 then PCont (xbad s)
+  else if c =? 120 then p_align 0 s (fun s => PCont (p_write s [0]))
+  else if c =? 88 then PCont (p_set_rd s (set_ao r))
+  else if c =? 32 then PCont s
   else PFail (EBadFormat c).
 
 Inductive pout :=
-| POk (out : list Z) (packed : list value) (defects : list defect)
+| POk (out : list Z) (packed : list value)
 | PErr (e : perr)
 | POutOfFuel.
 
@@ -367,8 +371,9 @@ Fixpoint pack_go (fuel : nat) (s : pst) : pout :=
   | O => POutOfFuel
   | S f =>
     match p_fmt s with
-    | [] => if alignOnly (p_rd s) then PErr EExpectedOption else POk (p_w s) (p_packed s) (p_def s)
+    | [] => if alignOnly (p_rd s) then PErr EExpectedOption else POk (p_w s) (p_packed s)
     | c :: rest =>
+      if alignOnly (p_rd s) && negb (alignable c) then PErr EExpectedOption else
       match pack_opt c (p_set_fmt s rest) with
       | PFail e => PErr e
       | PCont s' => pack_go f s'
@@ -376,26 +381,23 @@ Fixpoint pack_go (fuel : nat) (s : pst) : pout :=
     end
   end.
 Definition pack (fmt : list Z) (vs : list value) : pout :=
-  pack_go (S (length fmt)) (mkP rd0 fmt vs [] [] []).
+  pack_go (S (length fmt)) (mkP rd0 fmt vs [] []).
 
 (* ---------------------------------------------------------------- unpacker *)
-Record ust := mkU { u_rd : rd; u_fmt : list Z; u_j : Z; u_vals : list value }.
-Inductive ures := UCont (s : ust) | UFail (e : perr) | UPanicked | UBigAllocd.
+(* u_rest = pack[j:] *)
+Record ust := mkU { u_rd : rd; u_fmt : list Z; u_j : Z; u_rest : list Z; u_vals : list value }.
+Inductive ures := UCont (s : ust) | UFail (e : perr) | UPanicked.
 
-Definition u_set_rd (s : ust) (r : rd) := mkU r (u_fmt s) (u_j s) (u_vals s).
-Definition u_set_fmt (s : ust) (f : list Z) := mkU (u_rd s) f (u_j s) (u_vals s).
-Definition u_set_j (s : ust) (j : Z) := mkU (u_rd s) (u_fmt s) j (u_vals s).
-Definition u_add (s : ust) (v : value) := mkU (u_rd s) (u_fmt s) (u_j s) (u_vals s ++ [v]).
+Definition u_set_rd (s : ust) (r : rd) := mkU r (u_fmt s) (u_j s) (u_rest s) (u_vals s).
+Definition u_set_fmt (s : ust) (f : list Z) := mkU (u_rd s) f (u_j s) (u_rest s) (u_vals s).
+Definition u_adv (s : ust) (n : Z) :=
+  mkU (u_rd s) (u_fmt s) (u_j s + n) (skipn (Z.to_nat n) (u_rest s)) (u_vals s).
+Definition u_add (s : ust) (v : value) := mkU (u_rd s) (u_fmt s) (u_j s) (u_rest s) (u_vals s ++ [v]).
+Definition take (n : Z) (l : list Z) : list Z := firstn (Z.to_nat n) l.
 
-Section Unpack.
-Variable data : list Z.
-
-Definition slice (j n : Z) : list Z := firstn (Z.to_nat n) (skipn (Z.to_nat j) data).
-
-(* skip(n) *)
+(* skip(n): u.j += n; u.j <= len(u.pack) *)
 Definition u_skip (n : Z) (s : ust) (k : ust -> ures) : ures :=
-  let j := u_j s + n in
-  if j <=? len data then k (u_set_j s j) else UFail EUnexpectedPackEnd.
+  if n <=? len (u_rest s) then k (u_adv s n) else UFail EUnexpectedPackEnd.
 
 (* unpacker.align: no power-of-2 test here *)
 Definition u_align (n : Z) (s : ust) (k : ust -> ures) : ures :=
@@ -410,40 +412,33 @@ Definition u_align (n : Z) (s : ust) (k : ust -> ures) : ures :=
 (* binary.Read of n bytes through io.ReadFull: EOF when nothing is left,
    ErrUnexpectedEOF (-> errUnexpectedPackEnd) when some but not enough *)
 Definition u_read (n : Z) (s : ust) (k : list Z -> ust -> ures) : ures :=
-  let avail := len data - u_j s in
-  if n <=? avail then k (slice (u_j s) n) (u_set_j s (u_j s + n))
+  let avail := len (u_rest s) in
+  if n <=? avail then k (take n (u_rest s)) (u_adv s n)
   else if avail <=? 0 then UFail EEOF else UFail EUnexpectedPackEnd.
 (* direct u.Read(b[:n]) followed by the rn < n test *)
 Definition u_read_short (n : Z) (s : ust) (k : list Z -> ust -> ures) : ures :=
-  let avail := len data - u_j s in
-  if n <=? avail then k (slice (u_j s) n) (u_set_j s (u_j s + n))
+  if n <=? len (u_rest s) then k (take n (u_rest s)) (u_adv s n)
   else UFail EUnexpectedPackEnd.
 
-(* readStr(n): make([]byte, n) panics for n < 0 or n > maxAlloc; otherwise n bytes are
-   allocated (twice: readStr and binary.Read) BEFORE the remaining input is looked at.
-   When the announced length is at least [bigAlloc] and more than what is left, what
-   happens depends on the host's memory (an ordinary error, or the Go runtime dies with
-   'out of memory'): explicit outcome UBigAlloc. *)
-Definition bigAlloc : Z := 16777216. (* 2^24 *)
+(* readStr(n): the announced length is checked against what is left, then
+   make([]byte, n) (which panics for n < 0; n <= len(pack) cannot exceed maxAlloc) *)
 Definition u_read_str (n : Z) (s : ust) (k : list Z -> ust -> ures) : ures :=
-  if (n <? 0) || (maxAlloc <? n) then UPanicked
-  else if (bigAlloc <=? n) && (len data - u_j s <? n) then UBigAllocd
+  if (n <? 0) || (len (u_rest s) <? n) then UFail EUnexpectedPackEnd
+  else if n <? 0 then UPanicked
   else u_read n s k.
 
 (* skip0(n): n bytes that must all be zero *)
 Definition u_skip0 (n : Z) (s : ust) (k : ust -> ures) : ures :=
-  let j := u_j s + n in
-  if j <=? len data then
-    if forallb (fun b => b =? 0) (slice (u_j s) n) then k (u_set_j s j) else UFail EDoesNotFit
+  if n <=? len (u_rest s) then
+    if forallb (fun b => b =? 0) (take n (u_rest s)) then k (u_adv s n) else UFail EDoesNotFit
   else UFail EUnexpectedPackEnd.
 
 (* readSignExt(n): n > 0 bytes all 0 or all 0xff *)
 Definition u_sign_ext (n : Z) (s : ust) (k : Z -> ust -> ures) : ures :=
-  let j := u_j s + n in
-  if (0 <? n) && (j <=? len data) then
-    match slice (u_j s) n with
+  if (0 <? n) && (n <=? len (u_rest s)) then
+    match take n (u_rest s) with
     | b0 :: r =>
-      if ((b0 =? 0) || (b0 =? 255)) && forallb (fun b => b =? b0) r then k b0 (u_set_j s j)
+      if ((b0 =? 0) || (b0 =? 255)) && forallb (fun b => b =? b0) r then k b0 (u_adv s n)
       else UFail EDoesNotFit
     | [] => UFail EDoesNotFit
     end
@@ -478,7 +473,7 @@ Definition readVarInt (n : Z) (s : ust) (k : Z -> ust -> ures) : ures :=
       let b8 := if lt then bs ++ ext else ext ++ bs in
       k (sgn 8 (dec lt b8)) s).
 
-(* position of the first zero byte at or after j, if any *)
+(* offset of the first zero byte, if any *)
 Fixpoint find_zero (l : list Z) (i : Z) : option Z :=
   match l with
   | [] => None
@@ -527,10 +522,9 @@ Definition unpack_opt (c : Z) (s : ust) : ures :=
   else if c =? 122 then
     if alignOnly r then UFail EExpectedOption
     else
-      match find_zero (skipn (Z.to_nat (u_j s)) data) (u_j s) with
+      match find_zero (u_rest s) 0 with
       | None => UFail EUnexpectedPackEnd
-      | Some zi =>
-        u_read (zi - u_j s) s (fun bs s => u_skip 1 (u_add s (VStr bs)) (fun s => UCont s))
+      | Some zi => u_read zi s (fun bs s => u_skip 1 (u_add s (VStr bs)) (fun s => UCont s))
       end
   else if c =? 115 then
     match smallOptSize 8 (u_fmt s) with
@@ -539,7 +533,7 @@ Definition unpack_opt (c : Z) (s : ust) : ures :=
       u_align n (u_set_fmt s rest) (fun s =>
         readVarUint n s (fun l s => u_read_str l s (fun bs s => UCont (u_add s (VStr bs)))))
     end
-  else if c =? 120 then u_skip 1 s (fun s => UCont s)
+  else if c =? 120 then u_align 0 s (fun s => u_skip 1 s (fun s => UCont s))
   else if c =? 88 then
     if alignOnly r then UFail EExpectedOption else UCont (u_set_rd s (set_ao r))
   else if c =? 32 then
@@ -550,7 +544,6 @@ Inductive uout :=
 | UOk (vals : list value) (next : Z)
 | UErr (e : perr)
 | UPanic
-| UBigAlloc
 | UOutOfFuel.
 
 Fixpoint unpack_go (fuel : nat) (s : ust) : uout :=
@@ -560,19 +553,18 @@ Fixpoint unpack_go (fuel : nat) (s : ust) : uout :=
     match u_fmt s with
     | [] => if alignOnly (u_rd s) then UErr EExpectedOption else UOk (u_vals s) (u_j s)
     | c :: rest =>
+      if alignOnly (u_rd s) && negb (alignable c) then UErr EExpectedOption else
       match unpack_opt c (u_set_fmt s rest) with
       | UFail e => UErr e
       | UPanicked => UPanic
-      | UBigAllocd => UBigAlloc
       | UCont s' => unpack_go f s'
       end
     end
   end.
-End Unpack.
 
 (* [j] is the 0-based start offset (string.unpack's third argument minus one) *)
 Definition unpack (fmt : list Z) (data : list Z) (j : Z) : uout :=
-  unpack_go data (S (length fmt)) (mkU rd0 fmt j []).
+  unpack_go (S (length fmt)) (mkU rd0 fmt j (skipn (Z.to_nat j) data) []).
 
 (* ---------------------------------------------------------------- packsize *)
 Record sst := mkS { s_rd : rd; s_fmt : list Z; s_size : Z }.
@@ -623,8 +615,9 @@ Fixpoint size_go (fuel : nat) (s : sst) : sout :=
   | O => SOutOfFuel
   | S f =>
     match s_fmt s with
-    | [] => SOk (s_size s)
+    | [] => if alignOnly (s_rd s) then SErr EExpectedOption else SOk (s_size s)
     | c :: rest =>
+      if alignOnly (s_rd s) && negb (alignable c) then SErr EExpectedOption else
       match size_opt c (mkS (s_rd s) rest (s_size s)) with
       | SFail e => SErr e
       | SCont s' => size_go f s'
